@@ -143,14 +143,14 @@ def reinsert(m, g, rec, x):
     import elfi
     implicit = set(g.get("implicit", []))
     k = g["kind"][x]
-    tmp = x + "__re"
+    tmp = "re__tmp"         # the same temporary name every time: nothing of an earlier replacement may linger under it
+    has_obs = x in set(g.get("obs", []))
     if k == "const":
         elfi.Constant(Sym(["c", x]), model=m, name=tmp)
     else:
-        _make_node(m, g, rec, x, tmp, implicit, observed=False)
+        # the replacement brings the observation along (`become` moves the replacement's observed data to the node)
+        _make_node(m, g, rec, x, tmp, implicit, observed=has_obs)
     m[x].become(m[tmp])
-    if x in set(g.get("obs", [])):
-        m.observed[x] = Sym(["obs", x])
 
 
 def build_model(g, rec, order=None, model_name="symg"):
